@@ -175,7 +175,12 @@ func verifC23AAExec(f []string) string {
 	}
 	switch f[0] {
 	case "aafill":
-		return a.take(verifutil.Atoi(f[1]), 5*time.Second)
+		// only meaningful while the offline sub stream is the current one (the shrinker may produce the other
+		// case: nobody would ever write).  The deadline is a guard against a broken implementation only.
+		if a.pub != nil {
+			return "bad-op"
+		}
+		return a.take(verifutil.Atoi(f[1]), 60*time.Second)
 	case "aapub":
 		in := verifC23AAInFormat(a.codec)
 		a.pub = &SubStream{
@@ -193,7 +198,7 @@ func verifC23AAExec(f []string) string {
 		}
 		m := a.pub.InDesc.Medias[0]
 		a.pub.WriteUnit(m, m.Formats[0], &unit.Unit{PTS: verifutil.AtoI64(f[1]), Payload: verifC23MakePayload(a.codec, f[2])})
-		return a.take(1, 5*time.Second)
+		return a.take(1, 60*time.Second)
 	case "aaoff":
 		a.pub = nil
 		if err := a.strm.StartOfflineSubStream(); err != nil {
@@ -492,7 +497,7 @@ func verifC23Exec(op string) (res string) {
 	case got := <-st.recv:
 		generated := !(len(got.RTPPackets) == 1 && got.RTPPackets[0] == in)
 		return verifC23Answer(st, got, generated)
-	case <-time.After(10 * time.Second):
+	case <-time.After(60 * time.Second): // guard against a broken implementation only
 		return "timeout"
 	}
 }
